@@ -342,10 +342,14 @@ func vMkGen(rng *vRand) *vGen {
 
 // vReloadProvider serves configuration number min(calls, last) and remembers the watcher.
 type vReloadProvider struct {
-	mu      sync.Mutex
-	confs   []map[string]any
-	calls   int
-	watcher confmap.WatcherFunc
+	mu         sync.Mutex
+	confs      []map[string]any
+	calls      int
+	watcher    confmap.WatcherFunc
+	closeFails []bool // the close function of retrieval i returns an error
+	provFails  bool   // the provider's Shutdown returns an error
+	closed     []int  // how often retrieval i was closed
+	shutdowns  int
 }
 
 func (p *vReloadProvider) Retrieve(_ context.Context, _ string, w confmap.WatcherFunc) (*confmap.Retrieved, error) {
@@ -357,10 +361,29 @@ func (p *vReloadProvider) Retrieve(_ context.Context, _ string, w confmap.Watche
 	}
 	p.calls++
 	p.watcher = w
-	return confmap.NewRetrieved(p.confs[i])
+	for len(p.closed) <= i {
+		p.closed = append(p.closed, 0)
+	}
+	return confmap.NewRetrieved(p.confs[i], confmap.WithRetrievedClose(func(context.Context) error {
+		p.mu.Lock()
+		defer p.mu.Unlock()
+		p.closed[i]++
+		if i < len(p.closeFails) && p.closeFails[i] {
+			return fmt.Errorf("verr[9:1] close of retrieval %d failed", i)
+		}
+		return nil
+	}))
 }
-func (p *vReloadProvider) Scheme() string                 { return "vmem" }
-func (p *vReloadProvider) Shutdown(context.Context) error { return nil }
+func (p *vReloadProvider) Scheme() string { return "vmem" }
+func (p *vReloadProvider) Shutdown(context.Context) error {
+	p.mu.Lock()
+	defer p.mu.Unlock()
+	p.shutdowns++
+	if p.provFails {
+		return fmt.Errorf("verr[9:0] provider shutdown failed")
+	}
+	return nil
+}
 
 // how a generation's failing calls are chosen: the kind of the reload scenario
 func vReloadPlans(rng *vRand, gens []*vGen) string {
@@ -422,7 +445,7 @@ func vReloadPlans(rng *vRand, gens []*vGen) string {
 }
 
 func vReloadRun(out *vOut, rng *vRand) {
-	ngen := 2 + rng.Pick(5, 3, 1)
+	ngen := 1 + rng.Pick(3, 5, 3, 1)
 	var gens []*vGen
 	prov := &vReloadProvider{}
 	for j := 0; j < ngen; j++ {
@@ -431,6 +454,25 @@ func vReloadRun(out *vOut, rng *vRand) {
 		prov.confs = append(prov.confs, g.conf)
 	}
 	scenario := vReloadPlans(rng, gens)
+	// the collector's surroundings fail too: the configuration provider's Shutdown, the close
+	// function of a retrieved configuration (called when the configuration is re-resolved on a
+	// reload and when the collector stops)
+	prov.closeFails = make([]bool, ngen)
+	switch rng.Pick(5, 2, 2, 1) {
+	case 1:
+		prov.provFails = true
+	case 2:
+		prov.closeFails[rng.Intn(ngen)] = true
+	case 3:
+		prov.provFails = true
+		for j := range prov.closeFails {
+			prov.closeFails[j] = rng.Intn(3) == 0
+		}
+	}
+	// how the collector is asked to stop: Shutdown(), cancelled Run context, asynchronous error
+	stopHow := rng.Intn(3)
+	runCtx, runCancel := context.WithCancel(context.Background())
+	defer runCancel()
 	// one global sequence over all generations: every event is stamped
 	var seqMu sync.Mutex
 	var seq []int // generation of each event, in global order
@@ -479,7 +521,7 @@ func vReloadRun(out *vOut, rng *vRand) {
 		return
 	}
 	done := make(chan error, 1)
-	go func() { done <- col.Run(context.Background()) }()
+	go func() { done <- col.Run(runCtx) }()
 	var errAll error
 	finished := false
 	running := 0 // generations seen Running so far
@@ -501,7 +543,14 @@ func vReloadRun(out *vOut, rng *vRand) {
 					prov.mu.Unlock()
 					go wf(&confmap.ChangeEvent{}) // configuration changed: reload
 				} else {
-					col.Shutdown()
+					switch stopHow {
+					case 0:
+						col.Shutdown()
+					case 1:
+						runCancel()
+					default:
+						go func() { col.asyncErrorChannel <- fmt.Errorf("asynchronous error") }()
+					}
 				}
 			}
 			if time.Now().After(deadline) {
@@ -531,6 +580,12 @@ func vReloadRun(out *vOut, rng *vRand) {
 		c := &vCase{kind: 2, comps: g.comps, exts: g.exts, cfgw: g.cfgw, pipew: g.pipew, edges: g.edges, specEdges: g.edges,
 			deps: g.deps, hasConf: true, fxStart: g.pl.fxStart, fxStop: g.pl.fxStop, fcStart: g.pl.fcStart, fcStop: g.pl.fcStop,
 			fCfg: g.pl.fCfg, fReady: g.pl.fReady, fNotReady: g.pl.fNotReady, log: log, ret: ret}
+		if prov.closeFails[j] {
+			c.iStart = []int{1} // L[16]: this generation's close function fails
+		}
+		if j == 0 && prov.provFails {
+			c.iStop = []int{1} // L[17] of generation 0: the provider's Shutdown fails
+		}
 		cases = append(cases, c)
 		if nc == 0 && len(log) == 0 {
 			continue // never built
@@ -588,5 +643,13 @@ func vReloadRun(out *vOut, rng *vRand) {
 	out.Stat(fmt.Sprintf("state-after-run=%v", col.GetState()), 1)
 	out.Case(true, term)
 	out.Stat("reload="+scenario, 1)
+	out.Stat(fmt.Sprintf("stop-by=%d", stopHow), 1)
+	nprov := 0
+	for _, e := range vErrList(errAll) {
+		if e[0] == 9 {
+			nprov++
+		}
+	}
+	out.Stat(fmt.Sprintf("provider-errors-reported=%d", nprov), 1)
 	out.Stat(fmt.Sprintf("reload-generations-built=%d-of-%d", lastBuilt+1, ngen), 1)
 }
